@@ -163,6 +163,18 @@ def c07_pairs(seed):
   return pairs
 
 
+C07_KF_ORIGINAL = ('@Engine("sqlite");\n'
+                   'P(y, z) :- E(x, y), Element([(x + y)], 0) == z, (if (y > z) then z else y) == x;\n')
+C07_KF_PERMUTED = ('@Engine("sqlite");\n'
+                   'P(y, z) :- (if (y > z) then z else y) == x, Element([(x + y)], 0) == z, E(x, y);\n')
+
+
+def c07_kf_pairs(seed):
+  """witness of KF-C07-order-dependent-elimination: always exercised."""
+  return [dict(a=Side(C07_KF_ORIGINAL, 'P', label='original'), b=Side(C07_KF_PERMUTED, 'P', label='conjuncts'),
+               tables=['E'], K=2, strings_list=[], label='kf_witness/order-dependent elimination/conjuncts')]
+
+
 # ---------------------------------------------------------------- C11: shorthand <-> long form
 
 def sugar_pos_to_named(prog, rnd):
